@@ -643,6 +643,18 @@ def check_mesh(name, V, res, case):
     e = _err(rec, V)
     if not (e <= TOL):
         res.violation(f"C17|{name}|reconstruction|{cls}", f"{name}(U) for U = {show(V)}{_o(case)} (k={k}, {cls}) returned {brief(out)}; the documented product of these factors is {show(rec)}, max entry error {e:.3g}", case)
+    if np.iscomplexobj(V) and np.max(np.abs(V.imag)) == 0:
+        # the same matrix handed over with a real dtype (orthogonal matrices, signed permutations): same promises
+        res.stats[f"calls:{name}:real-dtype"] += 1
+        Vr = np.ascontiguousarray(V.real)
+        try:
+            out_r, rec_r = run_mesh(name, Vr)
+            if not (_err(rec_r, V) <= TOL):
+                res.violation(f"C17|{name}|reconstruction|real-dtype|{cls}", f"{name}(U) for the real-dtype U = {show(Vr)}{_o(case)} reconstructs with max entry error {_err(rec_r, V):.3g}", dict(case, real_dtype=True))
+        except Structure as e_:
+            res.violation(f"C17|{name}|structure|real-dtype|{cls}", f"{name}(U), real-dtype U = {show(Vr)}{_o(case)}: malformed result: {e_}", dict(case, real_dtype=True))
+        except Exception as e_:  # noqa: BLE001
+            res.violation(f"C17|{name}|raised-on-valid|real-dtype|{cls}", f"{name}(U) raised {type(e_).__name__}: {e_} for the unitary U = {show(Vr)}{_o(case)} given with a real dtype (det = {np.linalg.det(Vr):+.0f}); the complex-dtype copy of the same matrix is decomposed", dict(case, real_dtype=True))
     if name == "triangular" and not is_diag(V):
         r1, r2 = rec_triangular_literal(out, k)
         if _err(r1, V) <= TOL or _err(r2, V) <= TOL:
